@@ -212,7 +212,7 @@ fn run(name: &str, j: &J) -> Result<bool, String> {
         }
         // C18: compiling `SELECT <expr> FROM t` (and the same expression in WHERE and GROUP BY) through the SQL front end, the schema,
         // the rendering and both rewritings returns a relation or an error, never a panic
-        "c18_sql_case" | "c18_sql_search" => {
+        "c18_sql_case" | "c18_sql_search" | "c18_query_case" => {
             use qrlew::{hierarchy::Hierarchy, expr::Identifier, sql::parse, synthetic_data::SyntheticData};
             use std::sync::Arc;
             let t: Relation = Relation::table().name("t").schema(vec![
@@ -240,10 +240,11 @@ fn run(name: &str, j: &J) -> Result<bool, String> {
                 "d + 1", "d - d", "encode(w, 'hex')", "decode(w, 'hex')", "hex(x)", "is_bool(b)", "nosuchfunction(x, y)", "x::float", "x::text::integer", "sin(z)", "cos(n)", "sin(n)", "sin(x)",
                 "exp(1000 * q)", "exp(exp(q * 100))", "ln(exp(-1000 * q))", "1 / exp(-1000*q)", "9223372036854775807 + x", "-9223372036854775808 - x", "9223372036854775807 * x",
                 "(-9223372036854775807 - 1) / -1", "1e308 * q", "1e308 * 1e308", "1e-320 / q", "pow(10, 400)", "pow(0, -1)", "sqrt(-1)", "ln(0)", "ln(-1)", "log(0)",
-                "exp()", "greatest(x)", "coalesce()", "substr(w)", "regexp_replace(w)", "count()", "pow(x)", "round()", "ltrim()", "log()", "X'AB'",
+                "nosuchcolumn", "t.nosuch", "sum(nosuch)", "exp()", "greatest(x)", "coalesce()", "substr(w)", "regexp_replace(w)", "count()", "pow(x)", "round()", "ltrim()", "log()", "X'AB'",
             ];
             let one = |e: &str| -> Option<String> {
-                for q in [format!("SELECT {} AS r FROM t", e), format!("SELECT SUM(q) AS r FROM t WHERE ({}) IS NOT NULL", e), format!("SELECT SUM(q) AS sq FROM t GROUP BY {}", e)] {
+                let queries = if name == "c18_query_case" { vec![e.to_string()] } else { vec![format!("SELECT {} AS r FROM t", e), format!("SELECT SUM(q) AS r FROM t WHERE ({}) IS NOT NULL", e), format!("SELECT SUM(q) AS sq FROM t GROUP BY {}", e)] };
+                for q in queries {
                     let relations2 = relations.clone();
                     let q2 = q.clone();
                     let r = std::panic::catch_unwind(std::panic::AssertUnwindSafe(move || -> Result<(), String> {
@@ -262,6 +263,7 @@ fn run(name: &str, j: &J) -> Result<bool, String> {
                 None
             };
             std::panic::set_hook(Box::new(|_| {}));
+            if name == "c18_query_case" { let r = one(j["query"].as_str().unwrap()); if let Some(m) = &r { println!("  {}", m); } return Ok(r.is_none()); }
             if name == "c18_sql_case" { let r = one(j["expr"].as_str().unwrap()); if let Some(m) = &r { println!("  {}", m); } return Ok(r.is_none()); }
             for e in exprs { if let Some(m) = one(e) { println!("  {}", m); println!("QX-WITNESS {}", serde_json::json!({"expr": e})); return Ok(false); } }
             Ok(true)
@@ -312,12 +314,33 @@ fn run(name: &str, j: &J) -> Result<bool, String> {
                 if reprs(&y).iter().any(|r| img.contains(r)) { None } else { Some(format!("{} over {} has the range {} but its value at {} is {}", e, dt, img, arg, y)) }
             };
             std::panic::set_hook(Box::new(|_| {}));
+            if name == "c06_arith_case" && j.get("partial").is_some() { return run("c06_arith_search", &serde_json::json!({})); }
             if name == "c06_arith_case" {
                 let b: Vec<f64> = j["box"].as_array().unwrap().iter().map(|x| x.as_f64().unwrap()).collect();
                 let p: Vec<f64> = j["point"].as_array().unwrap().iter().map(|x| x.as_f64().unwrap()).collect();
                 let r = one(j["op"].as_str().unwrap(), j["float"].as_bool().unwrap(), [b[0], b[1], b[2], b[3]], [p[0], p[1]]);
                 if let Some(m) = &r { println!("  {}", m); }
                 return Ok(r.is_none());
+            }
+            // partial pointwise functions on FINITE sets of values: the image must say so (optional) when one of the values has no
+            // image — `a % b` is not defined for b = 0, `CAST(s AS INTEGER)` is not defined for a text that is not a number
+            {
+                let strict_null_ok = |img: &DataType, y: &Value| -> bool { if *y == Value::none() { matches!(img, DataType::Optional(_) | DataType::Any) } else { true } };
+                let cases: Vec<(Expr, DataType, Value)> = vec![
+                    (Expr::modulo(Expr::col("a"), Expr::col("b")), DataType::structured([("a", DataType::integer_values([7, 8])), ("b", DataType::integer_values([0, 3]))]), Value::structured([("a", Value::integer(7)), ("b", Value::integer(0))])),
+                    (Expr::cast_as_integer(Expr::col("a")), DataType::structured([("a", DataType::text_values(["1".to_string(), "12".to_string(), "n/a".to_string()]))]), Value::structured([("a", Value::text("n/a"))])),
+                    (Expr::cast_as_float(Expr::col("a")), DataType::structured([("a", DataType::text_values(["1.5".to_string(), "x".to_string()]))]), Value::structured([("a", Value::text("x"))])),
+                ];
+                for (e, dt, arg) in cases {
+                    let img = match std::panic::catch_unwind(std::panic::AssertUnwindSafe(|| e.super_image(&dt))) { Err(_) => { println!("  range propagation of {} over {} panics", e, dt); println!("QX-WITNESS {}", serde_json::json!({"partial": e.to_string()})); return Ok(false); } Ok(Err(_)) => continue, Ok(Ok(t)) => t };
+                    if let Ok(Ok(y)) = std::panic::catch_unwind(std::panic::AssertUnwindSafe(|| e.value(&arg))) {
+                        if !strict_null_ok(&img, &y) {
+                            println!("  {} over {} has the range {} but evaluates to {} at {}", e, dt, img, y, arg);
+                            println!("QX-WITNESS {}", serde_json::json!({"partial": e.to_string()}));
+                            return Ok(false);
+                        }
+                    }
+                }
             }
             let bounds = [-3.0, -1.0, 0.0, 2.0, 5.0];
             for op in ["plus", "minus", "multiply", "divide", "modulo"] { for fl in [false, true] {
@@ -338,6 +361,39 @@ fn run(name: &str, j: &J) -> Result<bool, String> {
                 } } } }
             } }
             Ok(true)
+        }
+        // C05: a published (public) relation preserved by an outer join with a tracked relation — every output row must carry a
+        // non-null privacy-unit identifier and weight
+        "c05_published_outer_join" => {
+            use qrlew::{hierarchy::Hierarchy, expr::Identifier, sql::parse, synthetic_data::SyntheticData, data_type::DataTyped};
+            use std::sync::Arc;
+            let users: Relation = Relation::table().name("users").schema(vec![("id", DataType::integer_interval(0, 100)), ("age", DataType::float_interval(0., 100.)), ("city_id", DataType::integer_interval(0, 10))].into_iter().collect::<Schema>()).size(100).build();
+            let cities: Relation = Relation::table().name("cities").schema(vec![("id", DataType::integer_interval(0, 10)), ("name", DataType::text())].into_iter().collect::<Schema>()).size(10).build();
+            let relations: Hierarchy<Arc<Relation>> = vec![users, cities].iter().map(|t| (Identifier::from(t.name()), Arc::new(t.clone()))).collect();
+            let q = j["query"].as_str().unwrap_or("SELECT c.name, u.age FROM cities AS c LEFT JOIN users AS u ON c.id = u.city_id");
+            let relation = Relation::try_from(parse(q).map_err(|e| e.to_string())?.with(&relations)).map_err(|e| e.to_string())?;
+            let sd = Some(SyntheticData::new(Hierarchy::from([(vec!["users"], Identifier::from("su")), (vec!["cities"], Identifier::from("sc"))])));
+            let r = match relation.rewrite_as_privacy_unit_preserving(&relations, sd, PrivacyUnit::from(vec![("users", vec![], "id")]), DpParameters::from_epsilon_delta(1., 1e-3), None) {
+                Ok(r) => r, Err(e) => { println!("  refused: {}", e); return Ok(true); } };
+            let schema = r.relation().schema().clone();
+            let id = schema.field("_PRIVACY_UNIT_").map_err(|e| e.to_string())?.data_type();
+            let w = schema.field("_PRIVACY_UNIT_WEIGHT_").map_err(|e| e.to_string())?.data_type();
+            println!("  {}\n  tracked result: _PRIVACY_UNIT_: {}, _PRIVACY_UNIT_WEIGHT_: {}", q, id, w);
+            Ok(!matches!(id, DataType::Optional(_)) && !matches!(w, DataType::Optional(_)))
+        }
+        // C07: an aggregation without GROUP BY returns one row even over an empty input, with NULL for SUM / AVG / MIN / MAX:
+        // the declared type must be optional when the input can be empty
+        "c07_empty_aggregate" => {
+            use qrlew::{hierarchy::Hierarchy, expr::Identifier, sql::parse, data_type::DataTyped};
+            use std::sync::Arc;
+            let t: Relation = Relation::table().name("t").schema(vec![("y", DataType::float_interval(0., 10.))].into_iter().collect::<Schema>()).size(i(j, "max_size")).build();
+            let relations: Hierarchy<Arc<Relation>> = vec![t].iter().map(|t| (Identifier::from(t.name()), Arc::new(t.clone()))).collect();
+            let q = j["query"].as_str().unwrap_or("SELECT sum(y) AS s FROM t");
+            let rel = Relation::try_from(parse(q).map_err(|e| e.to_string())?.with(&relations)).map_err(|e| e.to_string())?;
+            let input_can_be_empty = rel.inputs()[0].size().contains(&0);
+            let dt = rel.schema()[0].data_type();
+            println!("  {} over a table of size {}: declared {}; over zero rows SQL returns NULL", q, rel.inputs()[0].size(), dt);
+            Ok(!(input_can_be_empty && !matches!(dt, DataType::Optional(_) | DataType::Any)))
         }
         // C11: interval-set operations on the real Intervals<i64> versus plain point sets over 0..=9
         "c11_intervals_case" | "c11_intervals_search" => {
@@ -1001,28 +1057,54 @@ fn run(name: &str, j: &J) -> Result<bool, String> {
         // root label, and the applied derivation's score is the best among them (scores of the candidates via the public Score visitor)
         "c13_case" | "c13_search" => {
             use qrlew::{hierarchy::Hierarchy, expr::Identifier, sql::parse, differential_privacy::DpParameters, synthetic_data::SyntheticData, privacy_unit_tracking::Strategy};
-            use qrlew::rewriting::{Property, rewriting_rule::{RewritingRulesSelector, RewritingRulesSetter, Score}};
+            use qrlew::rewriting::{Property, rewriting_rule::{RewritingRulesSelector, RewritingRulesSetter, RewritingRulesEliminator, RelationWithRewritingRule, RelationWithRewritingRules, Score}};
             use qrlew::visitor::Acceptor as _;
-            use std::sync::Arc;
+            use std::{sync::Arc, ops::Deref};
+            // independent reference: plain enumeration of every consistent derivation (one rule per node, the rule's inputs being the
+            // labels of the children's rules) — it does not go through the library's eliminator / selector
+            fn enumerate<'a>(relation: &'a Relation, node: &RelationWithRewritingRules<'a>) -> Vec<Arc<RelationWithRewritingRule<'a>>> {
+                let children: Vec<Vec<Arc<RelationWithRewritingRule<'a>>>> = relation.inputs().into_iter().zip(node.inputs().iter()).map(|(r, n)| enumerate(r, n.deref())).collect();
+                let mut combinations: Vec<Vec<Arc<RelationWithRewritingRule<'a>>>> = vec![vec![]];
+                for child in children.iter() {
+                    combinations = combinations.into_iter().flat_map(|prefix| child.iter().map(move |c| { let mut v = prefix.clone(); v.push(c.clone()); v })).collect();
+                }
+                let mut result = vec![];
+                for combination in combinations { for rule in node.attributes() {
+                    if rule.inputs().len() == combination.len() && rule.inputs().iter().zip(combination.iter()).all(|(label, c)| label == c.attributes().output()) {
+                        result.push(Arc::new(RelationWithRewritingRule::new(relation, rule.clone(), combination.clone())));
+                    }
+                } }
+                result
+            }
             let mk = |name: &str| -> Relation { Relation::table().name(name).schema(vec![("id", DataType::integer_interval(0, 100)), ("k", DataType::integer_interval(0, 5)), ("a", DataType::float_interval(0., 10.))].into_iter().collect::<Schema>()).size(100).build() };
             let relations: Hierarchy<Arc<Relation>> = vec![mk("t"), mk("u"), mk("p")].iter().map(|t| (Identifier::from(t.name()), Arc::new(t.clone()))).collect();
             let queries = ["SELECT a FROM p", "SELECT a FROM t", "SELECT sum(a) AS s FROM t", "SELECT k, count(a) AS c FROM t GROUP BY k", "SELECT t.a FROM t JOIN (SELECT k FROM p) AS q ON t.k = q.k",
-                "SELECT count(a) AS c FROM (SELECT a FROM t UNION SELECT a FROM p) AS w", "SELECT t.a FROM t JOIN p ON t.k = p.k", "SELECT sum(t.a) AS s FROM t JOIN u ON t.id = u.id", "SELECT a FROM p UNION SELECT a FROM p"];
+                "SELECT count(a) AS c FROM (SELECT a FROM t UNION SELECT a FROM p) AS w", "SELECT t.a FROM t JOIN p ON t.k = p.k", "SELECT sum(t.a) AS s FROM t JOIN u ON t.id = u.id", "SELECT a FROM p UNION SELECT a FROM p",
+                "WITH totals AS (SELECT k AS it, SUM(a) AS total FROM t GROUP BY k) SELECT o.k AS item, COUNT(o.a) AS cnt FROM totals AS w JOIN t AS o ON w.it = o.k GROUP BY o.k",
+                "WITH totals AS (SELECT k AS it, SUM(a) AS total FROM t GROUP BY k) SELECT o.k AS item, o.a AS a, w.total AS total FROM totals AS w JOIN t AS o ON w.it = o.k",
+                "SELECT sum(a) AS s FROM (SELECT a FROM t UNION SELECT a FROM u) AS w"];
             let one = |q: &str, with_sd: bool| -> Option<String> {
                 let sd = || if with_sd { Some(SyntheticData::new(Hierarchy::from([(vec!["t"], Identifier::from("synthetic_t")), (vec!["u"], Identifier::from("synthetic_u")), (vec!["p"], Identifier::from("synthetic_p"))]))) } else { None };
                 let pu = || PrivacyUnit::from(vec![("t", vec![], "id"), ("u", vec![], "id")]);
                 let dp = || DpParameters::from_epsilon_delta(1., 1e-3);
                 let relation = Relation::try_from(parse(q).ok()?.with(&relations)).ok()?;
                 let with_rules = relation.set_rewriting_rules(RewritingRulesSetter::new(&relations, sd(), pu(), dp(), Strategy::Hard));
-                let cands: Vec<f64> = with_rules.select_rewriting_rules(RewritingRulesSelector).iter()
-                    .filter(|d| matches!(d.attributes().output(), Property::Public | Property::Published | Property::DifferentiallyPrivate | Property::SyntheticData))
-                    .map(|d| d.accept(Score)).collect();
+                let acceptable = |p: &Property| matches!(p, Property::Public | Property::Published | Property::DifferentiallyPrivate | Property::SyntheticData);
+                // reference: all consistent derivations with an acceptable root, scored by the library's own Score
+                let reference: Vec<f64> = enumerate(&relation, &with_rules).iter().filter(|d| acceptable(d.attributes().output())).map(|d| d.accept(Score)).collect();
+                let reference_best = reference.iter().cloned().fold(f64::NEG_INFINITY, f64::max);
+                // what the compiler searches through (the pipeline of the entry point)
+                let eliminated = with_rules.map_rewriting_rules(RewritingRulesEliminator);
+                let cands: Vec<f64> = eliminated.select_rewriting_rules(RewritingRulesSelector).iter().filter(|d| acceptable(d.attributes().output())).map(|d| d.accept(Score)).collect();
                 let best = cands.iter().cloned().fold(f64::NEG_INFINITY, f64::max);
                 let res = relation.rewrite_with_differential_privacy(&relations, sd(), pu(), dp());
-                match (&res, cands.is_empty()) {
+                match (&res, reference.is_empty()) {
                     (Ok(_), true) => return Some(format!("`{}` (synthetic data: {}) is rewritten although no consistent derivation has an acceptable root", q, with_sd)),
-                    (Err(e), false) => return Some(format!("`{}` (synthetic data: {}): {} consistent derivations with an acceptable root exist (best score {}) but the compiler returns {}", q, with_sd, cands.len(), best, e.to_string().trim())),
+                    (Err(e), false) => return Some(format!("`{}` (synthetic data: {}): {} consistent derivations with an acceptable root exist (best score {}) but the compiler returns {}", q, with_sd, reference.len(), reference_best, e.to_string().trim())),
                     _ => {}
+                }
+                if !reference.is_empty() && best != reference_best {
+                    return Some(format!("`{}` (synthetic data: {}): the best consistent derivation scores {} but the best one the compiler's search reaches scores {}", q, with_sd, reference_best, best));
                 }
                 None
             };
